@@ -188,7 +188,7 @@ class Prover:
                 try:
                     hy, gl, nq = smt.expand_native(ob)
                     if nq:
-                        tasks.append(Task(ob, 'native-quantifiers', hy, gl, [('z3-5.1.0', 4)]))
+                        tasks.append(Task(ob, 'native-quantifiers', hy, gl, [('z3-5.1.0', 8)]))
                         ob._native = (hy, gl)
                         import os as _os
                         if _os.environ.get('VERIF_DUMP_NATIVE') and _os.environ['VERIF_DUMP_NATIVE'] in ob.name:
@@ -268,7 +268,8 @@ class Prover:
                     t.ob.steps.append(self.rec(t.ob, t))
             pending = [ob for ob in pending if ob.status != 'unsat']
         for ob in pending:
-            hyps, goal = smt.expand(ob)
+            # the stages from here on may accept 'sat': universal facts get a second round of instances
+            hyps, goal = smt.expand(ob, rounds=2)
             ob._hyps, ob._goal = hyps, goal
             base = list(ob.info.get('inputs', []))
             have = set(t.get_id() for t in base)
@@ -407,6 +408,18 @@ class Prover:
                 ob.status = t.status; ob.backend = t.backend; ob.model = t.model; ob.model_text = getattr(t, 'model_text', '')
             else:
                 ob.status = 'unknown'
+        # a model of the instantiated problem is only a candidate when universal facts were instantiated lazily: before it counts as a
+        # refutation the solvers get a long attempt on the quantified problem (guards against a slow machine turning a proof that
+        # needs quantifier reasoning into an alarm)
+        again = [ob for ob in obs if ob.status == 'sat' and getattr(ob, '_native', None) and not getattr(ob, '_native_long_done', False)]
+        if again and not os.environ.get('VERIF_FAST'):
+            tasks2 = [Task(ob, 'native-quantifiers-before-accepting-a-model', ob._native[0], ob._native[1], [('z3-5.1.0', 90), ('cvc5-1.0.3', 60)]) for ob in again]
+            run_tasks(tasks2)
+            for t in tasks2:
+                t.ob._native_long_done = True
+                t.ob.steps.append(self.rec(t.ob, t))
+                if t.status == 'unsat':
+                    t.ob.status = 'unsat'; t.ob.backend = t.backend + '+quantifiers'; t.ob.smt2 = t.smt2; t.ob.model = None
 
     def rec(self, ob, t):
         r = {'obligation': ob.name, 'label': t.label, 'status': t.status, 'backend': t.backend, 'time': round(t.time, 3), 'detail': t.detail}
